@@ -19,7 +19,7 @@ mod parser;
 
 use self::parser::{
 	Parser, YAML_DOCUMENT_END_EVENT, YAML_DOCUMENT_START_EVENT, YAML_MAPPING_START_EVENT,
-	YAML_SCALAR_EVENT, YAML_SEQUENCE_START_EVENT, YAML_STREAM_END_EVENT,
+	YAML_SCALAR_EVENT, YAML_SEQUENCE_START_EVENT, YAML_STREAM_END_EVENT, YAML_STREAM_START_EVENT,
 };
 
 /// An iterator over individual raw documents in a UTF-8-encoded YAML stream.
@@ -108,6 +108,19 @@ where
 				}
 				_ => {}
 			};
+		}
+	}
+}
+
+/// Returns true if a UTF-8 encoded YAML stream is well-formed up to its end and
+/// ends before any document begins.
+pub(super) fn stream_has_no_documents(input: &[u8]) -> bool {
+	let mut parser = Parser::new(input);
+	loop {
+		match parser.next_event().map(|event| event.event_type()) {
+			Ok(YAML_STREAM_START_EVENT) => {}
+			Ok(YAML_STREAM_END_EVENT) => return true,
+			_ => return false,
 		}
 	}
 }
